@@ -185,6 +185,14 @@ def catalogue() -> List[Tmpl]:
     vi("import_dup_via_subdir", 'proto p\nimport one "sub/../lib.bitproto"\nimport two "lib.bitproto"\n', False, 3, {"lib.bitproto": lib, "sub/keep.bitproto": "proto keep\n"})
     vi("import_two_files_same_content_ok", 'proto p\nimport "lib.bitproto"\nimport "sub/lib2.bitproto"\nmessage M {\n    lib.Pt a = 1\n    lib2.Pt b = 2\n}\n', True, None, {"lib.bitproto": lib, "sub/lib2.bitproto": lib.replace("proto lib", "proto lib2")})
     vi("import_name_clash", 'proto p\nmessage lib {}\nimport "lib.bitproto"\n', False, 3, {"lib.bitproto": lib})
+    # `import <name> "file"` binds <name>, not the imported file's proto name: clashes are judged on <name>, and an error is
+    # cited in the importing file at the import line
+    vi("import_as_name_clash", 'proto p\nmessage other {}\nimport other "lib.bitproto"\n', False, 3, {"lib.bitproto": lib})
+    vi("import_as_frees_proto_name", 'proto p\nconst lib = 3\nimport l2 "lib.bitproto"\nmessage M {\n    l2.Pt a = 1\n    byte[lib] b = 2\n}\n', True, None, {"lib.bitproto": lib})
+    vi("import_same_proto_name_twice_as", 'proto p\nimport "v1/lib.bitproto"\nimport lib_v2 "v2/lib.bitproto"\nmessage M {\n    lib.Pt a = 1\n    lib_v2.Pt b = 2\n}\n', True, None, {"v1/lib.bitproto": lib, "v2/lib.bitproto": lib})
+    vi("import_same_proto_name_twice_plain", 'proto p\nimport "v1/lib.bitproto"\nimport "v2/lib.bitproto"\n', False, 3, {"v1/lib.bitproto": lib, "v2/lib.bitproto": lib})
+    vi("alias_of_imported_alias", 'proto p\nimport "lib.bitproto"\ntype Mine = lib.Row\n', False, 3, {"lib.bitproto": lib})
+    vi("alias_of_array_of_imported_alias_ok", 'proto p\nimport "lib.bitproto"\ntype Mine = lib.Row[2]\n', True, None, {"lib.bitproto": lib})
     vi("import_cyclic", 'proto p\nimport "a.bitproto"\n', False, 2, {"a.bitproto": 'proto a\nimport "main.bitproto"\n'}, "a.bitproto")
     vi("import_self", 'proto p\nimport "main.bitproto"\n', False, 2)
     vi("import_error_inside", 'proto p\nimport "bad.bitproto"\n', False, 3, {"bad.bitproto": "proto bad\nmessage M {\n    uint65 x = 1\n}\n"}, "bad.bitproto")
